@@ -62,7 +62,7 @@ func oneTree(r *Run, f *core.FuncInfo, label string) types.Object {
 	c := f.Ctx()
 	var tree types.Object
 	nNew := 0
-	ast.Inspect(f.Body(), func(x ast.Node) bool {
+	core.InspectBody(f, func(x ast.Node) bool {
 		as, ok := x.(*ast.AssignStmt)
 		if !ok || len(as.Rhs) != 1 || len(as.Lhs) != 1 {
 			return true
@@ -79,7 +79,7 @@ func oneTree(r *Run, f *core.FuncInfo, label string) types.Object {
 	})
 	bad := ""
 	nOps := 0
-	ast.Inspect(f.Body(), func(x ast.Node) bool {
+	core.InspectBody(f, func(x ast.Node) bool {
 		call, ok := x.(*ast.CallExpr)
 		if !ok {
 			return true
@@ -174,7 +174,7 @@ func init() {
 				if f := r.Fn(mst + "MemSet"); f != nil {
 					c := f.Ctx()
 					n := 0
-					ast.Inspect(f.Body(), func(x ast.Node) bool {
+					core.InspectBody(f, func(x ast.Node) bool {
 						call, ok := x.(*ast.CallExpr)
 						if !ok {
 							return true
@@ -207,7 +207,7 @@ func init() {
 					c := f.Ctx()
 					label := mst + "Commit saves the tree that was loaded under the requested hash"
 					ok := false
-					ast.Inspect(f.Body(), func(x ast.Node) bool {
+					core.InspectBody(f, func(x ast.Node) bool {
 						call, isCall := x.(*ast.CallExpr)
 						if !isCall {
 							return true
@@ -271,7 +271,7 @@ func init() {
 				// operands: every field of the hashed record is copied from the receiver's fields
 				recv := f.Recv()
 				m := 0
-				ast.Inspect(f.Body(), func(x ast.Node) bool {
+				core.InspectBody(f, func(x ast.Node) bool {
 					as, ok := x.(*ast.AssignStmt)
 					if !ok || len(as.Lhs) != 1 || len(as.Rhs) != 1 {
 						return true
@@ -401,7 +401,7 @@ func init() {
 				forb := core.Names(durable...)
 				writesIn := func(f *core.FuncInfo) *ast.CallExpr {
 					var hit *ast.CallExpr
-					ast.Inspect(f.Body(), func(x ast.Node) bool {
+					core.InspectBody(f, func(x ast.Node) bool {
 						if call, ok := x.(*ast.CallExpr); ok && hit == nil && forb.Has(core.Callee(f.Info(), call)) {
 							hit = call
 						}
@@ -467,7 +467,7 @@ func init() {
 					}
 					for _, f := range r.W.AllFuncs(pkg) {
 						occ := 0
-						ast.Inspect(f.Body(), func(x ast.Node) bool {
+						core.InspectBody(f, func(x ast.Node) bool {
 							call, ok := x.(*ast.CallExpr)
 							if !ok || !dels.Has(core.Callee(f.Info(), call)) {
 								return true
@@ -527,7 +527,7 @@ func init() {
 				if pkg := r.W.Pkg("system/store/mavl/db"); pkg != nil {
 					for _, f := range r.W.AllFuncs(pkg) {
 						has := false
-						ast.Inspect(f.Body(), func(x ast.Node) bool {
+						core.InspectBody(f, func(x ast.Node) bool {
 							if call, ok := x.(*ast.CallExpr); ok {
 								if fn := core.Callee(f.Info(), call); fn != nil && core.ShortName(fn) == "sync.(*Mutex).Lock" {
 									has = true
@@ -559,7 +559,7 @@ func init() {
 				}
 				c := f.Ctx()
 				n := 0
-				ast.Inspect(f.Body(), func(x ast.Node) bool {
+				core.InspectBody(f, func(x ast.Node) bool {
 					gs, ok := x.(*ast.GoStmt)
 					if !ok {
 						return true
